@@ -175,6 +175,24 @@ def run(ctx):
         g, nodes, u = _range_graph(ir, a, b_, d)
         r = opt._known_integer_value_bounds(nodes, u)
         ranges.append((a, b_, d, None if r is None else (int(r[0]), int(r[1]))))
+    # search (always on): the real bounds must contain every element ONNX Range emits (brute force on small spans)
+    small = [(a, b_, d) for a in range(-9, 10, 3) for b_ in range(-9, 10, 2) for d in (-7, -3, -2, -1, 1, 2, 3, 5, 7)]
+    small += [(-129, -128, 2), (-3, 131, 7), (120, 135, 4), (-120, -140, -9), (250, 262, 5)]
+    n_range_checked = 0
+    for (a, b_, d) in small + [t for t in trip if abs(t[1] - t[0]) // max(1, abs(t[2])) <= 20000 and t[2] != 0]:
+        g, nodes, u = _range_graph(ir, a, b_, d)
+        r = opt._known_integer_value_bounds(nodes, u)
+        elems = np.arange(a, b_, d, dtype=object) if d != 0 else []
+        n_range_checked += 1
+        if r is not None and len(elems) and (min(elems) < r[0] or max(elems) > r[1]):
+            # make it concrete for the property: a narrowing pair that the proof now wrongly accepts
+            ctx.violate(f"range-bounds Range({a},{b_},{d})",
+                        f"_known_integer_value_bounds gives [{r[0]}, {r[1]}] but Range({a},{b_},{d}) emits {int(min(elems))}..{int(max(elems))}: "
+                        "a narrowing cast round trip whose intermediate type covers only the claimed bounds is dropped although an element does not fit",
+                        {"kind": "range_bounds", "start": a, "limit": b_, "delta": d, "claimed": [int(r[0]), int(r[1])],
+                         "actual": [int(min(elems)), int(max(elems))]})
+            break
+    ctx.coverage["range_triples_bruteforced"] = n_range_checked
     txt = common.CASES_HEADER + "From J2OGen Require Import LibTables GenCast.\n"
     txt += "Definition c1 : list (Z*Z*bool) := [" + "; ".join(f"({zlit(s)},{zlit(t)},{blit(b)})" for s, t, b in cases) + "].\n"
     txt += "Eval vm_compute in bad_idx_ (fun c => let '(s,t,b) := c in match cast_roundtrip_is_value_preserving s t with Some r => Bool.eqb r b | None => false end) 0 c1.\n"
@@ -266,6 +284,13 @@ def replay(path):
     opt = _opt()
     r = json.load(open(path))["replay"]
     import random
+    if r.get("kind") == "range_bounds":
+        g, nodes, u = _range_graph(ir, r["start"], r["limit"], r["delta"])
+        b = opt._known_integer_value_bounds(nodes, u)
+        el = np.arange(r["start"], r["limit"], r["delta"], dtype=object)
+        bad = b is not None and len(el) and (min(el) < b[0] or max(el) > b[1])
+        print("bounds", b, "actual", (min(el), max(el)) if len(el) else None, "-> still violated" if bad else "-> ok")
+        return 1 if bad else 0
     s, t = r["source"], r["intermediate"]
     print("decision now:", opt._cast_roundtrip_is_value_preserving(s, t))
     w, _ = roundtrip_witness(_np_dtype(ir, s), _np_dtype(ir, t), random.Random(0))
